@@ -164,7 +164,11 @@ impl AgentSim {
         if let Some(v) = panic_violation(&self.prop, &r, &call_short(&c)) {
             return Err(v);
         }
-        if let Some(sh) = self.shadow.as_mut() {
+        // (polls are compared per instant, as sets, in `poll_at`: which of several transactions due at
+        // the same instant is served first is free, and may legitimately depend on bookkeeping that a
+        // dropped response touched)
+        let is_poll = matches!(c, Call::Poll { .. });
+        if let (Some(sh), false) = (self.shadow.as_mut(), is_poll) {
             let dropped = matches!((&c, &r), (Call::Handle { .. }, Reply::Drop | Reply::ParseErr(_)));
             if dropped {
                 self.shadow_skipped += 1;
@@ -278,9 +282,38 @@ impl AgentSim {
         }
         // sealing variant: 0 none, 1 FP, 2 SHA1, 3 SHA256, 4 SHA1+FP, 5 SHA256+FP, 6 both, 7 both+FP
         let w = [6u32, 2, sign_bias, sign_bias, sign_bias / 2 + 1, sign_bias / 2 + 1, sign_bias / 2 + 1, sign_bias / 2 + 1];
+        if big == 0 && ctx.ch.rare(1, 60) {
+            // a request with many attributes in front of its seal (15..40 distinct raw types)
+            let n = ctx.ch.range(15, 40);
+            attrs = (0..n).map(|i| TAttr::Raw(0x7200 + i as u16, ctx.ch.bytes((i % 4) as usize))).collect();
+            ctx.st.inc("probe.request_with_many_attributes");
+        }
         let variant = ctx.ch.weighted(&w) as u64;
         let method = *ctx.ch.pick(&[1u16, 3, 0xfff, 0]);
         MsgSpec { class: 0, method, tid, attrs, seals: seals_of(variant, &self.local_creds) }
+    }
+
+    /// C18, "carries ... the serialisation of the message handed to send": the oracle's copy of the
+    /// bytes comes from the library's own `build()`, so on top of byte equality the bytes are decoded
+    /// by the *reference* decoder and must carry the attribute types the application put in, in
+    /// order, with the exact value bytes of raw attributes (typed values would need an encoder of
+    /// their own, which is C03/C08 territory and not claimed).
+    pub fn carries_the_message(&self, ctx: &mut Ctx, spec: &MsgSpec, bytes: &[u8]) -> ScResult {
+        let want = spec.handed_in();
+        let got: Option<Vec<(u16, Vec<u8>)>> = match refcodec::decode(bytes) {
+            Verdict::Accept(view) => Some(view.all.iter().map(|a| (a.ty, a.value(bytes).to_vec())).collect()),
+            Verdict::Reject(_) => None,
+        };
+        let ok = match &got {
+            None => false,
+            Some(g) => g.len() == want.len() && g.iter().zip(want.iter()).all(|(g, w)| g.0 == w.0 && w.1.as_ref().map_or(true, |v| *v == g.1)),
+        };
+        if !ok {
+            let v = Violation::new("C18", "transmission_carries_the_message", "attribute_types_and_raw_values", format!("the serialisation of {} does not decode (reference decoder) to the attributes handed in: wanted types {:?}, got {:?}", spec.desc(), want.iter().map(|w| w.0).collect::<Vec<_>>(), got.map(|g| g.iter().map(|x| x.0).collect::<Vec<_>>())));
+            ev!(ctx, "  !! {}", v.message);
+            return Err(v);
+        }
+        Ok(())
     }
 
     pub fn fresh_tid(&mut self, ctx: &mut Ctx) -> u128 {
@@ -355,6 +388,9 @@ impl AgentSim {
         let to = *ctx.ch.pick(&self.pool);
         // the oracle's copy of the bytes is taken from the builder *before* the agent sees it
         let bytes = spec.build();
+        if self.prop == "C18" && bytes.len() < 4096 {
+            self.carries_the_message(ctx, &spec, &bytes)?;
+        }
         let signed = spec.signed();
         self.advance_before_send(ctx);
         let at = self.now;
@@ -394,6 +430,9 @@ impl AgentSim {
         let spec = MsgSpec { class, method: 1, tid, attrs, seals: seals_of(variant, &self.local_creds) };
         let to = *ctx.ch.pick(&self.pool);
         let bytes = spec.build();
+        if self.prop == "C18" {
+            self.carries_the_message(ctx, &spec, &bytes)?;
+        }
         self.advance_before_send(ctx);
         let at = self.now;
         ctx.st.inc("op.send_nonrequest");
@@ -435,7 +474,7 @@ impl AgentSim {
                 ctx.st.inc("probe.wakeup_more_than_3600s_ahead");
             }
         }
-        match self.model.on_poll(at, &r) {
+        let first = match self.model.on_poll(at, &r) {
             Ok(o) => {
                 match &o {
                     PollOutcome::Wait => ctx.st.inc("out.poll_wait"),
@@ -444,10 +483,57 @@ impl AgentSim {
                     PollOutcome::Cancelled(_) => ctx.st.inc("out.cancelled"),
                 }
                 self.gram(ctx, 0x30 + class * 4 + (r.kind() - 1).min(3));
-                Ok(o)
+                o
             }
-            Err(v) => Err(self.fail(ctx, v)),
+            Err(v) => return Err(self.fail(ctx, v)),
+        };
+        if self.shadow.is_some() {
+            self.twin_poll(ctx, at, r)?;
         }
+        Ok(first)
+    }
+
+    /// C07's twin at a poll: both agents are polled at this instant until they answer WaitUntil; the
+    /// *sets* of events they produced at this instant and the wake-up they then announce must be equal.
+    fn twin_poll(&mut self, ctx: &mut Ctx, at: u64, first: Reply) -> ScResult {
+        let key = |r: &Reply| format!("{r:?}");
+        let mut main_events: Vec<String> = vec![];
+        let mut cur = first;
+        let mut n = 0;
+        while !matches!(cur, Reply::Wait(_)) {
+            main_events.push(key(&cur));
+            n += 1;
+            if n > 3000 {
+                break;
+            }
+            let r2 = self.call(ctx, Call::Poll { at })?;
+            if let Err(v) = self.model.on_poll(at, &r2) {
+                return Err(self.fail(ctx, v));
+            }
+            ctx.st.inc("op.poll");
+            cur = r2;
+        }
+        let mut sh_events: Vec<String> = vec![];
+        let mut sh_wait = None;
+        let sh = self.shadow.as_mut().unwrap();
+        for _ in 0..(n + 3000) {
+            match exec(sh, &Call::Poll { at }, self.base) {
+                Reply::Wait(t) => {
+                    sh_wait = Some(Reply::Wait(t));
+                    break;
+                }
+                e => sh_events.push(key(&e)),
+            }
+        }
+        main_events.sort();
+        sh_events.sort();
+        let live = self.model.live_count() > 0;
+        if main_events != sh_events || (live && Some(&cur) != sh_wait.as_ref() && matches!(cur, Reply::Wait(_))) {
+            let v = Violation::new("C07", "dropped_responses_change_nothing", "poll", format!("after {} dropped message(s), polling at +{} until WaitUntil produced {} event(s) and then {}; a twin agent that was handed the same calls without the dropped messages produced {} event(s) and then {}", self.shadow_skipped, fmt_ns(at as i128), main_events.len(), cur.short(), sh_events.len(), sh_wait.map(|w| w.short()).unwrap_or("no WaitUntil".into())));
+            ev!(ctx, "  !! {} [{}]: {}", v.clause, v.site, v.message);
+            return Err(v);
+        }
+        Ok(())
     }
 
     pub fn op_poll(&mut self, ctx: &mut Ctx) -> ScResult {
@@ -522,7 +608,15 @@ impl AgentSim {
             // genuine: what a well-behaved peer would send
             0 => {
                 if request_signed {
-                    (mk(attrs, seals_of(signed_variant, &self.peer_creds)), "genuine_signed")
+                    // a well-behaved peer answers with the algorithm(s) of the request
+                    let algs = self.model.txs.iter().rfind(|t| t.tid == tid).map(|t| t.req_algs).unwrap_or((true, false));
+                    let fp = ctx.ch.below(2);
+                    let variant = match algs {
+                        (true, true) => 6 + fp,
+                        (false, true) => if fp == 0 { 3 } else { 5 },
+                        _ => if fp == 0 { 2 } else { 4 },
+                    };
+                    (mk(attrs, seals_of(variant, &self.peer_creds)), "genuine_signed")
                 } else {
                     let fp = ctx.ch.below(2);
                     (mk(attrs, seals_of(fp, &self.peer_creds)), "genuine_unsigned")
@@ -532,7 +626,14 @@ impl AgentSim {
                 let fp = ctx.ch.below(2);
                 (mk(attrs, seals_of(fp, &self.peer_creds)), "unsigned")
             }
-            2 => (mk(attrs, seals_of(signed_variant, &self.other_creds)), "signed_other_key"),
+            2 => {
+                if ctx.ch.rare(1, 3) {
+                    // the right key but a drawn algorithm (possibly not the request's: a bid-down)
+                    (mk(attrs, seals_of(signed_variant, &self.peer_creds)), "signed_drawn_algorithm")
+                } else {
+                    (mk(attrs, seals_of(signed_variant, &self.other_creds)), "signed_other_key")
+                }
+            }
             3 => (mk(attrs, seals_of(signed_variant, &self.local_creds)), "signed_local_key"),
             4 => {
                 // correct MAC, then one bit of it flipped (FINGERPRINT recomputed so that it parses)
@@ -603,7 +704,14 @@ impl AgentSim {
                 let mut m = RefMsg::new(class, method, tid);
                 let (ty, lens): (u16, &[usize]) = if ctx.ch.coin() { (refcodec::MI, &[16, 0, 4, 19, 21, 24, 32]) } else { (refcodec::MI256, &[12, 36, 0, 8, 17, 33, 64]) };
                 let l = *ctx.ch.pick(lens);
-                m.items.push(RefItem::Attr { ty, value: ctx.ch.bytes(l), pad: 0 });
+                if ty == refcodec::MI256 && ctx.ch.coin() {
+                    // ... carrying the *correct* HMAC prefix (or the HMAC plus filler): a 32-bit tag
+                    // can be guessed; RFC 8489 allows 16..32 bytes in steps of 4 only
+                    let l2 = *ctx.ch.pick(&[4usize, 8, 12, 1, 15, 17, 18, 30, 33, 36]);
+                    m.items.push(RefItem::Mac256 { creds: self.peer_creds.reference(), len: l2, flip: None });
+                } else {
+                    m.items.push(RefItem::Attr { ty, value: ctx.ch.bytes(l), pad: 0 });
+                }
                 if ctx.ch.coin() {
                     m.items.push(RefItem::Fp { flip: None });
                 }
@@ -650,11 +758,20 @@ impl AgentSim {
             }
             k => {
                 let (tid, signed, dest) = if k == 0 { *ctx.ch.pick(&live) } else { *ctx.ch.pick(&done) };
+                // a response carries its request's method; one time in eight another one (a confused
+                // or hostile peer: either verdict, but nothing else may change)
+                let req_method = self.model.txs.iter().rfind(|t| t.tid == tid).map(|t| t.method).unwrap_or(1);
+                let method = if ctx.ch.rare(1, 8) {
+                    ctx.st.inc("fault.response_with_other_method");
+                    *ctx.ch.pick(&[1u16, 3, 0xfff, 0])
+                } else {
+                    req_method
+                };
                 if k == 1 {
                     ctx.st.inc("fault.response_after_completion");
                     self.faults += 1;
                 }
-                let (b, l) = self.gen_response(ctx, tid, 1, signed, kind_w);
+                let (b, l) = self.gen_response(ctx, tid, method, signed, kind_w);
                 let from = if ctx.ch.rare(1, 5) {
                     ctx.st.inc("fault.response_from_other_address");
                     *ctx.ch.pick(&self.pool)
@@ -665,7 +782,7 @@ impl AgentSim {
             }
         };
         match label {
-            "genuine_signed" | "genuine_unsigned" | "truncated_sha256_valid" => ctx.st.inc("op.respond_genuine"),
+            "genuine_signed" | "genuine_unsigned" | "truncated_sha256_valid" | "signed_drawn_algorithm" => ctx.st.inc("op.respond_genuine"),
             "truncated_in_flight" => {
                 ctx.st.inc("fault.truncate");
                 self.faults += 1
@@ -704,7 +821,7 @@ impl AgentSim {
                 ctx.st.inc("out.dropped");
                 // C07: a dropped response leaves the transaction outstanding
                 if let Some(tid) = tid_of(&bytes) {
-                    if self.model.live_idx(tid).is_some() {
+                    if self.model.live_idx(tid).map_or(false, |i| !self.model.txs[i].rc) {
                         let q = self.call(ctx, Call::QueryTx { tid })?;
                         if !matches!(q, Reply::Tx(Some(_))) {
                             // the same observation breaks C05 (gone without having completed) and C07
@@ -738,8 +855,9 @@ impl AgentSim {
         w[0] = 0; // never the genuine one
         w[7] = 0; // nor the valid truncated one
         for i in 0..n {
-            let (b, label) = self.gen_response(ctx, tid, 1, true, &w);
-            if label == "truncated_sha256_valid" || label == "genuine_signed" {
+            let m = self.model.txs.iter().rfind(|t| t.tid == tid).map(|t| t.method).unwrap_or(1);
+            let (b, label) = self.gen_response(ctx, tid, m, true, &w);
+            if label == "truncated_sha256_valid" || label == "genuine_signed" || label == "signed_drawn_algorithm" {
                 continue;
             }
             // a valid response under the *current* remote credentials is not a forgery: skip it
@@ -1228,6 +1346,28 @@ pub fn replays(ctx: &mut Ctx, s: &AgentSim, tcp: bool) -> ScResult {
             return Err(replay_violation(ctx, "anchored_in_real_past", hist, i, &got, ""));
         }
         ctx.st.inc("replay.anchored_in_real_past");
+    }
+    // (f) with the thread's tracing subscriber toggled: whether anybody listens to the library's
+    // log statements is ambient state too (arguments of log macros are only evaluated when a
+    // subscriber wants them).  The batch runner installs a TRACE subscriber for some runs; the replay
+    // runs with the opposite setting.
+    {
+        let outer_on = ctx.tracing_on;
+        let r = if outer_on {
+            tracing::subscriber::with_default(tracing::subscriber::NoSubscriber::default(), || {
+                let mut f = new_agent_with(tcp, local, s.remote);
+                replay_on(&mut f, hist, anchor())
+            })
+        } else {
+            crate::pipeline::with_subscriber(|| {
+                let mut f = new_agent_with(tcp, local, s.remote);
+                replay_on(&mut f, hist, anchor())
+            })
+        };
+        if let Some((i, got)) = r {
+            return Err(replay_violation(ctx, "tracing_subscriber_toggled", hist, i, &got, if outer_on { " (original run with a TRACE subscriber, replay without)" } else { " (original run without a subscriber, replay with a TRACE subscriber)" }));
+        }
+        ctx.st.inc("replay.tracing_subscriber_toggled");
     }
     ctx.st.nontrivial = true;
     Ok(())
